@@ -5,7 +5,9 @@
 EXTENDS Voice, Json
 CONSTANT AllPairs   \* TRUE: every ordered pair of pool questions; FALSE: each question alone and beside two others
 VARIABLES q1, q2
-F == [nstate |-> 1, nstream |-> 2, winset |-> 2, stage |-> 0, gv |-> FALSE, shape |-> 1, quoted |-> TRUE, salt |-> 0]
+F0 == [nstate |-> 1, nstream |-> 2, winset |-> 2, stage |-> 0, gv |-> FALSE, shape |-> 1, quoted |-> TRUE, salt |-> 0]
+\* every other voice has a multi-space stream of vector length 2 (PDF length 2 x length x windows + 1)
+F == IF q1 % 2 = 0 THEN [F0 EXCEPT !.salt = 1000, !.nstate = 2] ELSE F0
 Init == q1 = 0 /\ q2 = 0
 Next == q1 = 0 /\ q1' \in 1..NQ /\ q2' \in (IF AllPairs THEN 0..NQ ELSE {0, 1 + (q1' % NQ), 1 + ((q1' + 11) % NQ)})
 Spec == Init /\ [][Next]_<<q1, q2>>
